@@ -357,6 +357,26 @@ pub fn run_lockstep(c: &ProgCase, cmp: Compare, ctx: &mut Ctx) -> Result<LockOut
                 ));
             }
         }
+        // ---------------- structure: the table of open loops and the frame count refine the model's
+        // (no loop may linger after the NEXT / FOR that forgets it; abandoned loops do not accumulate)
+        if real_err.is_none() {
+            let p = s.probe(false);
+            let real_loops: Vec<String> = p.loops.iter().map(|l| l.symbol.clone()).collect();
+            if real_loops != m.loop_vars() {
+                return Err(v(
+                    "loop-table-differs",
+                    format!("real {} model {}", real_loops.len(), m.loops_len()),
+                    format!("segment {seg}: open FOR loops are {:?}, the reference model has {:?}", real_loops, m.loop_vars()),
+                ));
+            }
+            if p.stack.len() != m.frames_len() {
+                return Err(v(
+                    "frame-count-differs",
+                    format!("real {} model {}", p.stack.len(), m.frames_len()),
+                    format!("segment {seg}: {} subroutine frames on the stack, the reference model has {}", p.stack.len(), m.frames_len()),
+                ));
+            }
+        }
         // ---------------- states
         let rs = s.state();
         match (rs, m.state) {
